@@ -55,6 +55,21 @@ fn main() {
             props::c11::generate(&opts, &mut sink);
             sink.finish(props::c11::RULE, serde_json::json!({}));
         }
+        "C13" => {
+            let mut sink = cases::CaseSink::new("C13", "Corr.C13", &opts.out, 300);
+            props::c13::generate(&opts, &mut sink);
+            sink.finish(props::c13::RULE, serde_json::json!({}));
+        }
+        "C14" => {
+            let mut sink = cases::CaseSink::new("C14", "Corr.C14", &opts.out, 300);
+            props::c14::generate(&opts, &mut sink);
+            sink.finish(props::c14::RULE, serde_json::json!({}));
+        }
+        "C07" => {
+            let mut sink = cases::CaseSink::new("C07", "Corr.C07", &opts.out, 150);
+            props::c07::generate(&opts, &mut sink);
+            sink.finish(props::c07::RULE, serde_json::json!({}));
+        }
         p => {
             eprintln!("unknown property {p}");
             std::process::exit(2);
